@@ -223,9 +223,11 @@ theorem exchange_correct (go : GroupOracle h F G) (sid bits : Bytes) (tA rO tb :
   · rw [recvProcess_id]
     simp only
     rw [hrecv]
-    refine ⟨_, ?_, by simp, by simp, ?_⟩
+    refine ⟨_, ?_, ?_, ?_, ?_⟩
     · rw [if_neg]
       simp
+    · simp
+    · simp
     · intro idx hidx
       refine ⟨_, (si idx).rho, ?_, ?_, rfl⟩
       · simp [hidx]
